@@ -500,6 +500,80 @@ def eval_side(ck, hs, ok, which):
     return bad
 
 
+def eval_fn(ck, binp, ok):
+    """function-level tie (harness fn.go): ColumnSortHelper.Sort / MergeRecord / MergeRecordDescend called directly; direct
+    oracle in the harness (Go LWW map), every result also compared with sort_dedup / over of Model.v. Fails closed."""
+    n = 600 if ck.tier == "quick" else 6000
+    rc, out = ck.run([binp, "fn", str(n)], timeout=1200)
+    cs = [json.loads(l) for l in out.splitlines() if l.startswith('{"fn"')]
+    if rc != 0 or len(cs) != n:
+        ck.broken.append("harness c02 fn failed rc=%d cases=%d/%d: %s" % (rc, len(cs), n, out[-400:]))
+        return
+    nviol = 0
+    for c in cs:
+        if c.get("bad") or c.get("err"):
+            nviol += 1
+            if nviol <= 2:
+                ck.violation({"kind": "direct-oracle-function", "what": "%s: %s" % (c["fn"], c.get("bad") or c.get("err")), "case": c})
+    ck.cov["function_level_cases"] = {"cases": len(cs), "oracle_failures": nviol}
+    if not ok:
+        return
+    code = {"sort": 0, "merge": 1, "mergd": 2}
+
+    def case_txt(c):
+        return "(%s, %s, %s, %s)" % (coq_z(code[c["fn"]]), coq_rows(c["a"], 0), coq_rows(c.get("b"), 0), coq_rows(c.get("out"), 0))
+    hdr = ("From Coq Require Import ZArith List Bool. From OG Require Import C02.Model C02.Corr C02.CorrFn.\n"
+           "Import ListNotations. Open Scope Z_scope.\n")
+    good = [c for c in cs if not (c.get("bad") or c.get("err"))]
+    shard = 150
+    files = []
+    for a in range(0, len(good), shard):
+        files.append(("c02fn%d" % (a // shard), hdr + "Definition cases : list fncase := [\n%s\n].\n"
+                      "Definition A := Eval vm_compute in fn_bad cases.\nPrint A.\nDefinition T := Eval vm_compute in fn_total cases.\nPrint T.\n"
+                      % ";\n".join(case_txt(c) for c in good[a:a + shard])))
+    # canary: one case of every function with a changed output value must be reported
+    can = []
+    for fn in ("sort", "merge", "mergd"):
+        for c in good:
+            if c["fn"] == fn and c.get("out") and c["out"][0]["f"]:
+                cc = json.loads(json.dumps(c))
+                cc["out"][0]["f"][0]["v"] += 1
+                can.append(case_txt(cc))
+                break
+    if len(can) == 3:
+        files.append(("c02fncanary", hdr + "Definition cases : list fncase := [\n%s\n].\nDefinition A := Eval vm_compute in fn_bad cases.\nPrint A.\n"
+                      % ";\n".join(can * 4)))
+    else:
+        ck.broken.append("C02 function canary: no usable case of every function")
+        return
+    outs = ck.coq_eval_many(files, timeout=900)
+    rc, o = outs.pop()
+    m = re.search(r"A\s*=\s*(.*?)\s*:\s*list", o, re.S)
+    tups = coq_tuples(m.group(1), 3) if rc == 0 and m else None
+    if tups is None or {t[0] for t in tups} != set(range(12)):
+        ck.broken.append("C02 function canary: corrupted results were not reported by the model evaluation (read back: %s)" % (
+            o[-300:] if tups is None else sorted(tups)))
+        return
+    total = 0
+    for i, (rc, o) in enumerate(outs):
+        m = re.search(r"A\s*=\s*(.*?)\s*:\s*list", o, re.S)
+        mt = re.search(r"T\s*=\s*(\d+)(?:%nat)?\s*:\s*nat", o)
+        tups = coq_tuples(m.group(1), 3) if rc == 0 and m else None
+        sent = len(good[i * shard:(i + 1) * shard])
+        if tups is None or not mt or int(mt.group(1)) != sent:
+            ck.broken.append("C02 function-level model evaluation failed on shard %d: %s" % (i, o[-400:]))
+            return
+        total += sent
+        for (k, fn, _) in tups:
+            c = good[i * shard + k]
+            ck.broken.append("correspondence C02 function %s: lib/record result differs from the model (%s) although it equals the "
+                             "last-write-wins replay" % (c["fn"], "sort_dedup" if c["fn"] == "sort" else "over"))
+            if not hasattr(ck, "nofail_detail"):
+                ck.nofail_detail = {"kind": "correspondence-function", "case": c}
+            break
+    ck.cov["function_level_cases"]["replayed_on_model"] = total
+
+
 def eval_model(ck, hs, ok):
     """returns {variant: {case index: (op index, code)}} ; variant in VARIANTS"""
     res = {v: {} for v in VARIANTS}
@@ -598,7 +672,7 @@ def main(ck):
     targets = ["C02/Corr.vo"]
     have_proofs = os.path.exists(os.path.join(ck.verif, "coq", "C02", "Props.v"))
     if have_proofs:
-        targets += ["C02/Proofs.vo", "C02/Refine.vo", "C02/FileCursor.vo", "C02/CorrAgg.vo", "C02/LayoutOk.vo", "C02/TagSet.vo", "C02/Limit.vo"]
+        targets += ["C02/Proofs.vo", "C02/Refine.vo", "C02/FileCursor.vo", "C02/CorrAgg.vo", "C02/LayoutOk.vo", "C02/TagSet.vo", "C02/Limit.vo", "C02/CorrFn.vo"]
     ok = ck.coq_build(targets)
     if ok and have_proofs:
         props = ["C02/Props.v"]
@@ -641,6 +715,9 @@ def main(ck):
     aggbad = eval_agg(ck, hs, ok)
     sidebad = {w: eval_side(ck, hs, ok, w) for w in ("tag", "lim")}
     ck.log("file-cursor and tag-set replays done")
+    if not getattr(ck, "replay", None):
+        eval_fn(ck, binp, ok)
+        ck.log("function-level tie done")
 
     # ---- verdicts
     # entries of the committed per-property fragment that the merged known_findings.json does not hold yet
